@@ -2237,6 +2237,7 @@ theorem segmap_new_spec (H : Hashes) (pow cap : Nat) :
 
 /-! ### cache.Cache -/
 
+section casSection
 variable [DecidableEq V]
 
 /-- **`CompareAndSwap`** acts exactly when the identical value is current. -/
@@ -2343,5 +2344,245 @@ theorem cad_spec {H : Hashes} (hH : HashOk H) {c : Cache V} (inv : SegInv H c.da
       refine ⟨inv, ?_, by simp, by simp, rfl⟩
       simp only [Bool.false_eq_true, Option.some.injEq, false_iff]
       exact hc
+
+
+end casSection
+
+/-! ### histories -/
+
+/-- operations on one `UInt64Map` -/
+inductive Op (V : Type) where
+  | put (k : Nat) (v : V)
+  | pine (k : Nat) (v : V)
+  | del (k : Nat)
+  | evict (offset n skip : Nat)
+  | grow
+  | clear
+
+def step (idx : Nat → Nat → Nat) (m : UMap V) : Op V → UMap V
+  | .put k v => m.put idx k v
+  | .pine k v => (m.putIfNotExists idx k v).1
+  | .del k => (m.del idx k).1
+  | .evict o n s => (m.evictKeysAt idx o n s).1
+  | .grow => m.grow idx
+  | .clear => m.clear
+
+/-- what the property lets an operation do to the abstract map `Key → Option Val` -/
+def Allowed (f f' : Nat → Option V) : Op V → Prop
+  | .put k v => ∀ k', f' k' = if k' = k then some v else f k'
+  | .pine k v => ∀ k', f' k' = if k' = k then some ((f k).getD v) else f k'
+  | .del k => ∀ k', f' k' = if k' = k then none else f k'
+  | .evict _ _ skip => ∀ k', f' k' = f k' ∨ (f' k' = none ∧ k' ≠ skip)
+  | .grow => ∀ k', f' k' = f k'
+  | .clear => ∀ k', f' k' = none
+
+/-- a run of the abstract map along an op list -/
+inductive Run : (Nat → Option V) → List (Op V) → (Nat → Option V) → Prop
+  | nil (f : Nat → Option V) : Run f [] f
+  | cons {f f' f'' : Nat → Option V} {op : Op V} {ops : List (Op V)} :
+      Allowed f f' op → Run f' ops f'' → Run f (op :: ops) f''
+
+theorem step_spec {idx : Nat → Nat → Nat} (hidx : IdxOk idx) {m : UMap V} (inv : Inv idx m) (op : Op V) :
+    Inv idx (step idx m op) ∧ Allowed (abs m) (abs (step idx m op)) op := by
+  cases op with
+  | put k v => obtain ⟨h1, h2, _⟩ := put_spec hidx inv k v; exact ⟨h1, h2⟩
+  | pine k v => obtain ⟨h1, h2, _⟩ := putIfNotExists_spec hidx inv k v; exact ⟨h1, h2⟩
+  | del k => obtain ⟨h1, h2, _⟩ := del_spec hidx inv k; exact ⟨h1, h2⟩
+  | evict o n s => obtain ⟨h1, _, _, _, h5⟩ := evict_spec hidx inv o n s; exact ⟨h1, h5⟩
+  | grow => obtain ⟨h1, h2, _⟩ := grow_spec hidx inv; exact ⟨h1, h2⟩
+  | clear => obtain ⟨h1, h2, _⟩ := clear_spec inv; exact ⟨h1, h2⟩
+
+theorem history_spec {idx : Nat → Nat → Nat} (hidx : IdxOk idx) (ops : List (Op V)) :
+    ∀ (m : UMap V), Inv idx m → Inv idx (ops.foldl (step idx) m) ∧ Run (abs m) ops (abs (ops.foldl (step idx) m)) := by
+  induction ops with
+  | nil => intro m inv; exact ⟨inv, Run.nil _⟩
+  | cons op ops ih =>
+    intro m inv
+    obtain ⟨h1, h2⟩ := step_spec hidx inv op
+    obtain ⟨h3, h4⟩ := ih _ h1
+    exact ⟨h3, Run.cons h2 h4⟩
+
+/-- operations on a `cache.Cache` -/
+inductive COp (V : Type) where
+  | add (k : Nat) (v : V)
+  | remove (k : Nat)
+  | cas (k : Nat) (old new : V)
+  | cad (k : Nat) (old : V)
+
+section cache
+variable [DecidableEq V]
+
+def cstep (H : Hashes) (c : Cache V) : COp V → Cache V
+  | .add k v => c.add H k v
+  | .remove k => c.remove H k
+  | .cas k o n => (c.compareAndSwap H k o n).1
+  | .cad k o => (c.compareAndDelete H k o).1
+
+def CAllowed (f f' : Nat → Option V) : COp V → Prop
+  | .add k v => f' k = some v ∧ ∀ k', k' ≠ k → f' k' = f k' ∨ f' k' = none
+  | .remove k => ∀ k', f' k' = if k' = k then none else f k'
+  | .cas k o n => if f k = some o then ∀ k', f' k' = if k' = k then some n else f k' else ∀ k', f' k' = f k'
+  | .cad k o => if f k = some o then ∀ k', f' k' = if k' = k then none else f k' else ∀ k', f' k' = f k'
+
+inductive CRun : (Nat → Option V) → List (COp V) → (Nat → Option V) → Prop
+  | nil (f : Nat → Option V) : CRun f [] f
+  | cons {f f' f'' : Nat → Option V} {op : COp V} {ops : List (COp V)} :
+      CAllowed f f' op → CRun f' ops f'' → CRun f (op :: ops) f''
+
+/-- invariant of a cache between operations (no writer in flight) -/
+structure CacheInv (H : Hashes) (c : Cache V) : Prop where
+  seg : SegInv H c.data
+  cap : 1 ≤ c.maxSize
+  bound : c.data.count ≤ c.maxSize
+
+theorem cstep_spec {H : Hashes} (hH : HashOk H) {c : Cache V} (inv : CacheInv H c) (op : COp V) :
+    CacheInv H (cstep H c op) ∧ (cstep H c op).maxSize = c.maxSize ∧
+    CAllowed (sabs H c.data) (sabs H (cstep H c op).data) op := by
+  have hcap := inv.cap
+  have hb := inv.bound
+  cases op with
+  | add k v =>
+    obtain ⟨h1, h2, h3, h4⟩ := setWithCap_spec hH inv.seg k v (c.maxSize : Int)
+    refine ⟨⟨h1, hcap, ?_⟩, rfl, h2, h3⟩
+    have := h4 (by omega)
+    show (c.data.setWithCap H k v c.maxSize).count ≤ (c.maxSize : Int)
+    omega
+  | remove k =>
+    obtain ⟨h1, h2, _, h4⟩ := seg_del_spec hH inv.seg k
+    refine ⟨⟨h1, hcap, ?_⟩, rfl, h2⟩
+    show (c.data.del H k).1.count ≤ (c.maxSize : Int)
+    rw [h4]; split <;> omega
+  | cas k o n =>
+    obtain ⟨h1, h2, h3, h4, h5⟩ := cas_spec hH inv.seg k o n
+    refine ⟨⟨h1, by show 1 ≤ (c.compareAndSwap H k o n).1.maxSize; rw [h5]; exact hcap, ?_⟩, h5, ?_⟩
+    · show (c.compareAndSwap H k o n).1.data.count ≤ ((c.compareAndSwap H k o n).1.maxSize : Int)
+      rw [h5]
+      cases hr : (c.compareAndSwap H k o n).2 with
+      | true => rw [(h3 hr).2]; exact hb
+      | false => rw [h4 hr]; exact hb
+    · show if sabs H c.data k = some o then _ else _
+      cases hr : (c.compareAndSwap H k o n).2 with
+      | true => rw [if_pos (h2.mp hr)]; exact (h3 hr).1
+      | false =>
+        rw [if_neg (by intro h; rw [h2.mpr h] at hr; cases hr)]
+        intro k'; show sabs H (c.compareAndSwap H k o n).1.data k' = _; rw [h4 hr]
+  | cad k o =>
+    obtain ⟨h1, h2, h3, h4, h5⟩ := cad_spec hH inv.seg k o
+    refine ⟨⟨h1, by show 1 ≤ (c.compareAndDelete H k o).1.maxSize; rw [h5]; exact hcap, ?_⟩, h5, ?_⟩
+    · show (c.compareAndDelete H k o).1.data.count ≤ ((c.compareAndDelete H k o).1.maxSize : Int)
+      rw [h5]
+      cases hr : (c.compareAndDelete H k o).2 with
+      | true => rw [(h3 hr).2]; omega
+      | false => rw [h4 hr]; exact hb
+    · show if sabs H c.data k = some o then _ else _
+      cases hr : (c.compareAndDelete H k o).2 with
+      | true => rw [if_pos (h2.mp hr)]; exact (h3 hr).1
+      | false =>
+        rw [if_neg (by intro h; rw [h2.mpr h] at hr; cases hr)]
+        intro k'; show sabs H (c.compareAndDelete H k o).1.data k' = _; rw [h4 hr]
+
+theorem cache_history_spec {H : Hashes} (hH : HashOk H) (ops : List (COp V)) :
+    ∀ (c : Cache V), CacheInv H c →
+      CacheInv H (ops.foldl (cstep H) c) ∧ (ops.foldl (cstep H) c).maxSize = c.maxSize ∧
+      CRun (sabs H c.data) ops (sabs H (ops.foldl (cstep H) c).data) := by
+  induction ops with
+  | nil => intro c inv; exact ⟨inv, rfl, CRun.nil _⟩
+  | cons op ops ih =>
+    intro c inv
+    obtain ⟨h1, h2, h3⟩ := cstep_spec hH inv op
+    obtain ⟨h4, h5, h6⟩ := ih _ h1
+    exact ⟨h4, by rw [List.foldl_cons, h5, h2], CRun.cons h3 h6⟩
+
+theorem cache_new_inv (H : Hashes) (size : Nat) : CacheInv H (Cache.new size : Cache V) ∧
+    (Cache.new size : Cache V).maxSize = max size 1 ∧ ∀ k, sabs H (Cache.new size : Cache V).data k = none := by
+  unfold Cache.new
+  simp only
+  obtain ⟨h1, h2, h3⟩ := segmap_new_spec (V := V) H 8
+    (2 ^ (if (if size < 1 then 1 else size) ≤ 1024 then 8 else if (if size < 1 then 1 else size) ≤ 10000 then 10
+      else if (if size < 1 then 1 else size) ≤ 100000 then 12 else if (if size < 1 then 1 else size) ≤ 500000 then 14 else 16))
+  refine ⟨⟨h1, ?_, ?_⟩, ?_, h2⟩
+  · show 1 ≤ (if size < 1 then 1 else size); split <;> omega
+  · rw [h3]; show (0 : Int) ≤ ((if size < 1 then 1 else size : Nat) : Int); omega
+  · show (if size < 1 then 1 else size) = max size 1; split <;> omega
+
+end cache
+
+/-! ### counter-level transition system for concurrent writers -/
+
+/-- the atomic counter and the number of writers between their insert and the end of their toll -/
+structure CState where
+  count : Int
+  owing : Nat
+
+/-- lock-atomic sections of `SetWithCap`, `Del`, `CompareAndDelete` seen from the counter. -/
+inductive CStep (cap : Int) : CState → CState → Prop
+  /-- `Put` + `count.Add(1)` under the segment lock (`b`: the key was new) -/
+  | insert (s : CState) (b : Bool) : CStep cap s ⟨s.count + (if b then 1 else 0), s.owing + 1⟩
+  /-- the writer reads `count <= capacity` and returns -/
+  | observe (s : CState) : 0 < s.owing → s.count ≤ cap → CStep cap s ⟨s.count, s.owing - 1⟩
+  /-- the writer's toll removed `d ≥ 1` entries (own segment or spill) and it returns -/
+  | pay (s : CState) (d : Nat) : 0 < s.owing → 1 ≤ d → CStep cap s ⟨s.count - d, s.owing - 1⟩
+  /-- any further removal (more toll, `Del`, `CompareAndDelete`, `Remove`) -/
+  | remove (s : CState) (d : Nat) : CStep cap s ⟨s.count - d, s.owing⟩
+
+inductive CReach (cap : Int) : CState → CState → Prop
+  | refl (s : CState) : CReach cap s s
+  | step {s t u : CState} : CReach cap s t → CStep cap t u → CReach cap s u
+
+theorem creach_bound (cap : Int) (s t : CState) (h : CReach cap s t) (h0 : s.count ≤ cap + s.owing) :
+    t.count ≤ cap + t.owing := by
+  induction h with
+  | refl => exact h0
+  | step _ st ih =>
+    cases st with
+    | insert b => simp only; split <;> omega
+    | observe h1 h2 => simp only; omega
+    | pay d h1 h2 => simp only; omega
+    | remove d => simp only; omega
+
+/-! ### LimiterStore -/
+
+theorem lim_get_spec (s : Lim) (k : Nat) (victim : Option Nat)
+    (hb : s.keys.length ≤ max s.maxSize 1)
+    (hv : s.maxSize ≤ s.keys.length → s.keys ≠ [] → ∃ w, victim = some w ∧ w ∈ s.keys) :
+    (s.get k victim).keys.length ≤ max s.maxSize 1 ∧ k ∈ (s.get k victim).keys ∧
+    (s.get k victim).maxSize = s.maxSize ∧
+    (∀ k', k' ∈ s.keys → k' ∈ (s.get k victim).keys ∨ (some k' = victim ∧ k' ≠ k)) := by
+  unfold Lim.get
+  by_cases hk : k ∈ s.keys
+  · rw [if_pos hk]; exact ⟨hb, hk, rfl, fun k' h => Or.inl h⟩
+  · rw [if_neg hk]
+    simp only
+    by_cases hfull : s.keys.length ≥ s.maxSize
+    · rw [if_pos hfull]
+      by_cases hnil : s.keys = []
+      · rw [hnil]
+        refine ⟨?_, by simp, trivial, by simp⟩
+        cases victim <;> simp <;> omega
+      · obtain ⟨w, hw, hmem⟩ := hv hfull hnil
+        rw [hw]
+        simp only
+        refine ⟨?_, by simp, trivial, ?_⟩
+        · rw [List.length_cons, List.length_erase_of_mem hmem]
+          have : 0 < s.keys.length := List.length_pos_of_mem hmem
+          omega
+        · intro k' hk'
+          by_cases hkw : k' = w
+          · right; exact ⟨by rw [hkw], by intro h; rw [h] at hk'; exact hk hk'⟩
+          · left; exact List.mem_cons_of_mem _ ((List.mem_erase_of_ne hkw).mpr hk')
+    · rw [if_neg hfull]
+      refine ⟨?_, by simp, trivial, fun k' h => Or.inl (List.mem_cons_of_mem _ h)⟩
+      rw [List.length_cons]; omega
+
+/-! ### the real mixers are admissible instances -/
+
+theorem realIdx_ok : IdxOk realIdx := fun n _ hn => Nat.mod_lt _ hn
+
+theorem realHashes_ok : HashOk realHashes := ⟨realIdx_ok, fun n _ hn => Nat.mod_lt _ hn⟩
+
+/-- a hash that makes every key collide on the last slot (wrap-around chains); used for non-vacuity examples -/
+def lastSlot (n _k : Nat) : Nat := n - 1
+
+theorem lastSlot_ok : IdxOk lastSlot := fun n _ hn => by unfold lastSlot; omega
 
 end SdnsVerif.Lemmas.UMap
